@@ -53,7 +53,8 @@ def run_family(chk, name, cases, case_fn, site, rule, nontrivial=lambda case: Tr
                            rerun=dict(kind="case", module=case_fn.__module__ if case_fn.__module__ != "__main__" else
                                       "checks." + __import__("os").path.splitext(__import__("os").path.basename(__import__("sys").argv[0]))[0],
                                       function=case_fn.__name__, case=_jsonable(case)),
-                           features=dict(case.get("features", {}), tag=case.get("tag"), base=str(case.get("tag")).split("/")[0], **{k: case[k] for k in ("vec", "backend", "solver") if k in case}))
+                           features=dict(dict(case.get("features", {}), **(f.get("features") or {})), tag=case.get("tag"), base=str(case.get("tag")).split("/")[0],
+                                         **{k: case[k] for k in ("vec", "backend", "solver") if k in case}))
                 chk.report_failure(rec)
     if n_timeouts:
         chk.notes.append(f"{name}: {len(n_timeouts)} case(s) exceeded the per-case budget of {timeout} s and are UNDECIDED (not counted as "
